@@ -60,6 +60,8 @@ def json_as(ty, raw):
         return False, None
     if ty == "String":
         return isinstance(v, str), v
+    if ty == "Option<String>":
+        return (v is None or isinstance(v, str)), v
     if ty == "u32":
         return (isinstance(v, int) and not isinstance(v, bool) and 0 <= v < 2 ** 32 and "." not in text and "e" not in text.lower()), v
     if ty == "Inner":
@@ -117,13 +119,13 @@ def data_cases(rm, tier):
     goods = [execute_envelope(v.encode()) for v in vals]
     v0 = vals[-1].encode()
     base = execute_envelope(v0)
-    wrong = {"String": [b"7", b"null", b"[]"], "u32": [b'"x"', b"-1", b"4294967296", b"1.5", b"null"], "Inner": [b"{}", b'{"n":"x","o":null}', b'{"o":"s"}', b"[]"]}[rm.data_ty]
+    wrong = {"Option<String>": [b"7", b"[]", b"{}"], "String": [b"7", b"null", b"[]"], "u32": [b'"x"', b"-1", b"4294967296", b"1.5", b"null"], "Inner": [b"{}", b'{"n":"x","o":null}', b'{"o":"s"}', b"[]"]}[rm.data_ty]
     bads = [b"", b"\x0a\x00", b"\x08\x01", b"\x12\x01x", b"\x0b\x01x", v0, base + b"\x00\x01", b"\x0a" + b"\xff" * 9 + b"\x01", b"\x0a\x7f" + v0]
     out += [("good%d" % i, g) for i, g in enumerate(goods)]
     out += [("bad%d" % i, b) for i, b in enumerate(bads)]
     out += [("wrongtype%d" % i, execute_envelope(w)) for i, w in enumerate(wrong)]
     out += [("envcut%d" % k, base[:k]) for k in range(1, len(base))]
-    if rm.data_ty in ("String", "Inner"):
+    if rm.data_ty in ("String", "Inner", "Option<String>"):
         out += [("jsoncut%d" % k, execute_envelope(v0[:k])) for k in range(1, len(v0))]
     out += [("json_ws", execute_envelope(b" " + v0 + b"\n")), ("json_trailing", execute_envelope(v0 + b"x"))]
     return out
